@@ -59,13 +59,7 @@ impl TraitFnAnalyzer<'_> {
             .fn_attrs
             .iter()
             .chain(body_attrs.iter())
-            .filter_map(|attr| match &attr.meta {
-                meta if meta.path().is_ident("cfg") => Some(attr.clone()),
-                meta => Some(syn::Attribute {
-                    meta: conditional_cfg(meta)?,
-                    ..attr.clone()
-                }),
-            })
+            .filter_map(carried_cfg)
             .collect();
         Ok(trait_fn)
     }
@@ -125,6 +119,17 @@ impl TraitFnAnalyzer<'_> {
             default_body: None,
             fn_generic_arguments,
         })
+    }
+}
+
+/// What an attribute says about `cfg`, if anything: a `cfg` itself, or the `cfg`s inside a `cfg_attr`
+pub(crate) fn carried_cfg(attr: &syn::Attribute) -> Option<syn::Attribute> {
+    match &attr.meta {
+        meta if meta.path().is_ident("cfg") => Some(attr.clone()),
+        meta => Some(syn::Attribute {
+            meta: conditional_cfg(meta)?,
+            ..attr.clone()
+        }),
     }
 }
 
